@@ -16,7 +16,7 @@ func init() {
 		Level: "exploration",
 		Rule: "(a) a fixed family of Go types (every int/uint width, float32/64, string, bool, slices, nested slices, string maps, tagged structs, nested structs, pointers at every level, cty.Value fields, arrays, *big.Int / *big.Float) x generated Go values (zero, boundary, nil and empty forms): ToCtyValue against ImpliedType (or the corresponding list / number type for arrays and big numbers) then FromCtyValue must reproduce the Go value; " +
 			"(b) every number of the full alphabet plus every integer-width boundary and its neighbours, fractions, huge and infinite numbers x 14 Go numeric target types: decoding succeeds exactly when the number is representable and stores it; " +
-			"(c) every value of a bounded cty universe (known, null, unknown, DynamicVal) x every target type of the family: never a panic, and unknown / null-into-non-nilable / shape mismatches are errors; (d) one-deviation family: the cty counterpart of every family value with exactly one position (root or nested, depth <= 3) replaced by a null / unknown of its own type or a null / known value of 12 other types: refused wherever a reference walk over (value, Go type) finds an unknown, a null whose type is not the counterpart of the nilable target, a kind mismatch or an array-length mismatch; accepted decodes are mirrored back; distinct by (Go type, value) / (number, target) / (cty value, target); non-trivial = every case",
+			"(c) every value of a bounded cty universe (known, null, unknown, DynamicVal) x every target type of the family: never a panic, and unknown / null-into-non-nilable / shape mismatches are errors; (d) one-deviation family: the cty counterpart of every family value with exactly one position (root or nested, depth <= 3) replaced by a null / unknown of its own type or a null / known value of 12 other types: refused wherever a reference walk over (value, Go type) finds an unknown, a null whose type is not the counterpart of the nilable target, a kind mismatch or an array-length mismatch; accepted decodes are mirrored back; (e) reused targets: every ordered pair (triple for families of <= 4 values) of values of one Go type decoded one after the other into one target (maps losing keys, shrinking slices, pointers becoming nil, nested): after each decode the target holds exactly what a fresh target would; distinct by (Go type, value) / (number, target) / (cty value, target); non-trivial = every case",
 		Assumptions: []string{
 			"strings are compared modulo the documented NFC normalisation; NaN is not exercised (documented caller obligation)",
 			"for float targets an inexact number may be stored as either neighbouring float; numbers within one float32 half-ulp above MaxFloat32 are not judged",
@@ -524,6 +524,11 @@ func runC18(c *Ctx) {
 			}
 		})
 	}
+	// (e)
+	for _, gc := range c18ReuseFamily(fam) {
+		gc := gc
+		c.Unit(func(u *U) { c18Reuse(u, gc) })
+	}
 	// (b)
 	nums := c18Numbers(c.Thorough)
 	for _, t := range numTargets() {
@@ -635,6 +640,88 @@ func runC18(c *Ctx) {
 				}
 			}
 		})
+	}
+}
+
+// ---- (e) reused targets: decoding is a function of the value alone.  For every ordered pair (and,
+// for short families, triple) of values of one Go type the second / third decode goes into the
+// target that already holds the result of the earlier ones; what is stored must be the last value,
+// with nothing left over from the earlier ones (stale map entries, longer slices, set pointers).
+func c18Reuse(u *U, gc goCase) {
+	var vals []cty.Value
+	var gos []interface{}
+	for _, g := range gc.vals {
+		var ty cty.Type
+		var err error
+		var v cty.Value
+		func() {
+			defer func() {
+				if r := recover(); r != nil {
+					err = fmt.Errorf("%v", r)
+				}
+			}()
+			if gc.ty != nil {
+				ty = *gc.ty
+			} else {
+				ty, err = gocty.ImpliedType(g)
+			}
+			if err == nil {
+				v, err = gocty.ToCtyValue(g, ty)
+			}
+		}()
+		if err != nil {
+			continue
+		}
+		vals = append(vals, v)
+		gos = append(gos, g)
+	}
+	if len(vals) < 2 {
+		return
+	}
+	gt := reflect.TypeOf(gc.vals[0])
+	run := func(seq []int) {
+		u.Eval(1)
+		u.DistinctN(1)
+		target := reflect.New(gt)
+		desc := ""
+		for k, i := range seq {
+			var err error
+			pan := func() (pan string) {
+				defer func() {
+					if r := recover(); r != nil {
+						pan = fmt.Sprint(r)
+					}
+				}()
+				err = gocty.FromCtyValue(vals[i], target.Interface())
+				return ""
+			}()
+			desc += fmt.Sprintf("FromCtyValue(%s, t); ", goStr(vals[i]))
+			shape := "reused target: " + gc.name
+			if pan != "" {
+				u.Violation("gocty.out-panics", shape, fmt.Sprintf("%s panicked at decode %d into one *%s: %s", desc, k+1, gc.name, firstLineOf(pan)))
+				return
+			}
+			if err != nil {
+				u.Violation("gocty.reused-target-fails", shape, fmt.Sprintf("%s decode %d into one *%s failed although the same decode into a fresh target succeeds: %v", desc, k+1, gc.name, err))
+				return
+			}
+			if !goEq(reflect.ValueOf(gos[i]), target.Elem()) {
+				u.Violation("gocty.reused-target-differs", shape, fmt.Sprintf("%s after decode %d the reused *%s holds %#v, a fresh target would hold %#v", desc, k+1, gc.name, target.Elem().Interface(), gos[i]))
+				return
+			}
+		}
+		u.Class("reused-target-ok")
+	}
+	n := len(vals)
+	for i := 0; i < n; i++ {
+		for j := 0; j < n; j++ {
+			run([]int{i, j})
+			if n <= 4 {
+				for k := 0; k < n; k++ {
+					run([]int{i, j, k})
+				}
+			}
+		}
 	}
 }
 
@@ -926,4 +1013,26 @@ func goTypeHas(t reflect.Type, pred func(reflect.Type) bool) bool {
 		}
 	}
 	return false
+}
+
+// c18ReuseFamily: the family plus values chosen so that a later value has fewer / other members
+// than an earlier one (maps losing keys, slices shrinking, pointers becoming nil, nested).
+func c18ReuseFamily(fam []goCase) []goCase {
+	type cfg struct {
+		Name string            `cty:"name"`
+		Tags map[string]string `cty:"tags"`
+		L    []int             `cty:"l"`
+		P    *int              `cty:"p"`
+	}
+	out := append([]goCase(nil), fam...)
+	out = append(out,
+		goCase{"map[string]int8", []interface{}{map[string]int8{"a": 1, "b": 2}, map[string]int8{"b": 3}, map[string]int8{}, map[string]int8(nil), map[string]int8{"c": 4, "d": 5, "e": 6}}, nil},
+		goCase{"[]string(shrinking)", []interface{}{[]string{"a", "b", "c"}, []string{"z"}, []string{}, []string(nil)}, nil},
+		goCase{"map[string][]int", []interface{}{map[string][]int{"k": {1, 2, 3}, "j": {9}}, map[string][]int{"k": {7}}, map[string][]int{"k": nil}}, nil},
+		goCase{"struct{map,slice,ptr}", []interface{}{cfg{"one", map[string]string{"env": "prod", "team": "a"}, []int{1, 2}, ip(1)}, cfg{"two", map[string]string{"env": "dev"}, []int{}, nil}, cfg{"three", nil, nil, ip(0)}, cfg{"four", map[string]string{}, []int{5, 6, 7}, ip(2)}}, nil},
+		goCase{"*map[string]int", []interface{}{&map[string]int{"a": 1, "b": 2}, &map[string]int{"b": 3}}, nil},
+		goCase{"[]map[string]int", []interface{}{[]map[string]int{{"a": 1, "b": 2}, {"c": 3}}, []map[string]int{{"b": 9}}}, nil},
+		goCase{"map[string]map[string]int", []interface{}{map[string]map[string]int{"x": {"a": 1, "b": 2}}, map[string]map[string]int{"x": {"b": 3}, "y": {}}}, nil},
+	)
+	return out
 }
